@@ -527,6 +527,118 @@ func c18Whole(c *hx.Ctx) {
 			}
 		}
 	}
+	// Pool churn: the scratch pool itself under load. Quotients of a few words by shared divisors of 8 200 .. 9 000
+	// words take three large scratch buffers each and only some ten microseconds of arithmetic: sixteen goroutines
+	// put the pool through hundreds of thousands of get/put pairs per second. Besides the results (each compared with
+	// the sequential one) the pool hook keeps an ownership table: a buffer handed out while it is still out is a
+	// violation whether or not a result shows it. (The table synchronises: this phase is about the pool's own
+	// algorithm, the phases above are the ones that leave the goroutines unordered for the race detector.)
+	{
+		var divisors, nums []*decimal.Decimal
+		for _, n := range []int{8200, 8192, 9000} {
+			w := make([]decimal.Word, n)
+			for k := range w {
+				w[k] = decimal.Word(r.U64() % wb)
+			}
+			w[n-1] = decimal.Word(wb/10 + r.U64()%(wb-wb/10))
+			divisors = append(divisors, new(decimal.Decimal).SetPrec(uint(n*19)).SetBitsExp(w, int64(r.Range(-5, 5))))
+		}
+		for i := 0; i < 4; i++ {
+			nums = append(nums, hx.Mk(r.Finite(r.Range(1, 57), int64(r.Range(-5, 5))), 0, r.Mode()))
+		}
+		type cj struct{ x, y, prec, mode int }
+		var cjobs []cj
+		for x := range nums {
+			for y := range divisors {
+				for _, p := range []int{1, 19, 38} {
+					cjobs = append(cjobs, cj{x, y, p, r.Mode()})
+				}
+			}
+		}
+		exec := func(j cj) string {
+			z := new(decimal.Decimal).SetPrec(uint(j.prec)).SetMode(decimal.RoundingMode(j.mode))
+			if pi := hx.Try(func() { z.Quo(nums[j.x], divisors[j.y]) }); pi != nil {
+				return "panic:" + pi.Class + ":" + pi.Text
+			}
+			return hx.RawOf(z).String()
+		}
+		cref := make([]string, len(cjobs))
+		for i, j := range cjobs {
+			cref[i] = exec(j)
+		}
+		dbefore := make([]hx.Raw, len(divisors))
+		for i, o := range divisors {
+			dbefore[i] = hx.RawOf(o)
+		}
+		per := 4000
+		if c.Tier == "thorough" {
+			per = 60000
+		}
+		const cg = 16
+		caseNo++
+		c.Begin(caseNo, fmt.Sprintf("pool churn: %d goroutines x %d quotients of short values by shared divisors of 8200, 8192 and 9000 words", cg, per))
+		var owned sync.Map
+		var double, gets atomic.Int64
+		var firstDouble atomic.Value
+		decimal.VerifPoolFn = func(buf []decimal.Word, put bool) {
+			if cap(buf) == 0 {
+				return
+			}
+			key := &buf[:1][0]
+			if put {
+				owned.Delete(key)
+				return
+			}
+			gets.Add(1)
+			if _, loaded := owned.LoadOrStore(key, true); loaded {
+				if double.Add(1) == 1 {
+					firstDouble.Store(fmt.Sprintf("a scratch buffer of %d words was handed out while another user still held it", cap(buf)))
+				}
+			}
+		}
+		old := runtime.GOMAXPROCS(16)
+		start := make(chan struct{})
+		var wg sync.WaitGroup
+		for g := 0; g < cg; g++ {
+			wg.Add(1)
+			go func(g int) {
+				defer wg.Done()
+				gr := hx.NewRNG(c.Seed, "C18-churn", int64(g))
+				<-start
+				for n := 0; n < per; n++ {
+					ji := gr.Intn(len(cjobs))
+					if got := exec(cjobs[ji]); got != cref[ji] {
+						if mon.mismatch.Add(1) == 1 {
+							j := cjobs[ji]
+							mon.firstBad.Store(fmt.Sprintf("pool churn: Quo(short value #%d, %d-word divisor #%d) prec=%d mode=%d in %d goroutines: concurrent result %.200q, sequential %.200q", j.x, len(dbefore[j.y].W), j.y, j.prec, j.mode, cg, got, cref[ji]))
+						}
+						return
+					}
+				}
+			}(g)
+		}
+		close(start)
+		wg.Wait()
+		runtime.GOMAXPROCS(old)
+		decimal.VerifPoolFn = nil
+		c.Eval(uint64(caseNo)<<20|uint64(c.Shard), true, "config/pool-churn")
+		c.Count("pool_churn_operations", int64(cg*per))
+		c.Count("pool_churn_buffers_handed_out", gets.Load())
+		if double.Load() > 0 {
+			c.Violate("scratch-buffer-shared", fmt.Sprintf("pool churn: %d time(s) %v", double.Load(), firstDouble.Load()), "")
+			return
+		}
+		for i, o := range divisors {
+			if !dbefore[i].Identical(hx.RawOf(o)) {
+				c.Violate("operand-modified", fmt.Sprintf("pool churn: shared divisor %d changed during concurrent read-only use", i), "")
+				return
+			}
+		}
+		if mon.mismatch.Load() > 0 {
+			c.Violate("concurrent-result-differs", fmt.Sprintf("%d result(s) differ from the sequential ones; first: %v", mon.mismatch.Load(), mon.firstBad.Load()), "")
+			return
+		}
+	}
 	c.Count("overlapping_operations_on_a_shared_operand", mon.overlaps.Load())
 	distinct := 0
 	for a := range mon.pairSeen {
